@@ -380,6 +380,11 @@ func (rm *ResponseManager) finishTask(task *peertask.Task, p peer.ID, err error)
 	if !ok {
 		return
 	}
+	// if a message of this response could not be sent its stream is closed and nothing more will go out,
+	// whatever the executor returned: the network error may have arrived after its last check for updates
+	if closable, ok := response.responseStream.(interface{ IsClosed() bool }); ok && closable.IsClosed() && !ipldutil.IsContextCancelErr(err) {
+		err = queryexecutor.ErrNetworkError
+	}
 	if _, ok := err.(hooks.ErrPaused); ok {
 		response.state = graphsync.Paused
 		return
